@@ -5,6 +5,8 @@ import (
 	"fmt"
 	"go/token"
 	"go/types"
+	"os"
+	"runtime/debug"
 	"sort"
 	"strings"
 
@@ -205,6 +207,9 @@ func inlineNewHelpers(prog *ssa.Program, main *ssa.Package, renamed map[*ssa.Fun
 	// the transformation lives outside go/ssa's own tests: whatever goes wrong in it, the program is analysed as written
 	defer func() {
 		if r := recover(); r != nil {
+			if os.Getenv("SIPVET_DEBUG") != "" {
+				fmt.Fprintf(os.Stderr, "sipvet: inliner panic: %v\n%s\n", r, debug.Stack())
+			}
 			err = fmt.Errorf("helper inliner panicked: %v", r)
 		}
 	}()
@@ -228,6 +233,7 @@ func inlineNewHelpers1(prog *ssa.Program, main *ssa.Package, renamed map[*ssa.Fu
 	}
 	var done []string
 	skip := map[*ssa.Function]bool{}
+	touched := map[*ssa.Function]bool{} // functions a helper was inlined into
 	for round := 0; round < 40; round++ {
 		srcFns := map[*ssa.Function]bool{}
 		for fn := range ssautil.AllFunctions(prog) {
@@ -336,6 +342,7 @@ func inlineNewHelpers1(prog *ssa.Program, main *ssa.Package, renamed map[*ssa.Fu
 				if rep := ssa.SanityCheckFunction(caller); rep != "" {
 					return done, fmt.Errorf("inlining a copy of %s into %s left inconsistent SSA: %s", f.RelString(main.Pkg), caller.RelString(main.Pkg), firstLine(rep))
 				}
+				touched[caller] = true
 				done = append(done, f.RelString(main.Pkg)+" (copy) -> "+caller.RelString(main.Pkg))
 				progress = true
 				break
@@ -352,6 +359,7 @@ func inlineNewHelpers1(prog *ssa.Program, main *ssa.Package, renamed map[*ssa.Fu
 			if rep := ssa.SanityCheckFunction(caller); rep != "" {
 				return done, fmt.Errorf("inlining %s into %s left inconsistent SSA: %s", f.RelString(main.Pkg), caller.RelString(main.Pkg), firstLine(rep))
 			}
+			touched[caller] = true
 			done = append(done, f.RelString(main.Pkg)+" -> "+caller.RelString(main.Pkg))
 			progress = true
 			break // use lists are stale: recompute
@@ -360,7 +368,60 @@ func inlineNewHelpers1(prog *ssa.Program, main *ssa.Package, renamed map[*ssa.Fu
 			break
 		}
 	}
+	// struct variables of types that do not exist on the pinned tree (carriers between new helpers): one variable per
+	// field, promoted to SSA values
+	var fns []*ssa.Function
+	for fn := range ssautil.AllFunctions(prog) {
+		if fn.Blocks == nil {
+			continue
+		}
+		top := fn
+		for top.Parent() != nil {
+			top = top.Parent()
+		}
+		if top.Pkg == main {
+			fns = append(fns, fn)
+		}
+	}
+	sort.Slice(fns, func(i, j int) bool { return fns[i].String() < fns[j].String() })
+	for _, fn := range fns {
+		if touched[fn] {
+			ssa.CleanupAfterSplit(fn)
+		}
+		n := ssa.ScalarReplace(fn, carrierType)
+		if n == 0 && !touched[fn] {
+			continue
+		}
+		// what inlining and splitting leave behind: blocks that only jump on, joins of equal values, flags that mirror a
+		// condition, tests every predecessor already knows the outcome of
+		if os.Getenv("SIPVET_DEBUG") != "" {
+			fmt.Fprintln(os.Stderr, "sipvet: cleanup", fn.String())
+		}
+		ssa.CleanupAfterSplit(fn)
+		if rep := ssa.SanityCheckFunction(fn); rep != "" {
+			return done, fmt.Errorf("scalar replacement in %s left inconsistent SSA: %s", fn.RelString(main.Pkg), firstLine(rep))
+		}
+		if n > 0 {
+			done = append(done, fmt.Sprintf("%d carrier struct variable(s) split in %s", n, fn.RelString(main.Pkg)))
+		}
+	}
 	return done, nil
+}
+
+// carrierType: al is a variable of a named struct type that does not exist on the pinned tree.
+func carrierType(al *ssa.Alloc) bool {
+	pt, ok := al.Type().Underlying().(*types.Pointer)
+	if !ok {
+		return false
+	}
+	if _, isStruct := pt.Elem().Underlying().(*types.Struct); !isStruct {
+		return false
+	}
+	nt, ok := pt.Elem().(*types.Named)
+	if !ok {
+		return false // unnamed struct types occur on the pinned tree (the configuration): left as written
+	}
+	return nt.Obj().Pkg() != nil && !isBaselineType(nt.Obj().Name())
 }
 
 // isWellKnownMethod: methods that library code calls through its own interfaces (fmt.Stringer, error, io.Writer ...).
@@ -428,6 +489,48 @@ func carrierAlloc(al *ssa.Alloc) bool {
 				return false
 			}
 		case *ssa.UnOp, *ssa.DebugRef:
+		case *ssa.MakeClosure:
+			// captured by a function literal that only reads its fields: the writes are all here
+			fn, _ := x.Fn.(*ssa.Function)
+			if fn == nil {
+				return false
+			}
+			for i, b := range x.Bindings {
+				if b != ssa.Value(al) {
+					continue
+				}
+				if i >= len(fn.FreeVars) || !readOnlyFields(fn.FreeVars[i]) {
+					return false
+				}
+			}
+		default:
+			return false
+		}
+	}
+	return true
+}
+
+// readOnlyFields: the captured struct variable fv is only read, field by field (or as a whole), in its function literal.
+func readOnlyFields(fv *ssa.FreeVar) bool {
+	for _, r := range *fv.Referrers() {
+		switch x := r.(type) {
+		case *ssa.FieldAddr:
+			for _, rr := range *x.Referrers() {
+				switch y := rr.(type) {
+				case *ssa.UnOp:
+					if y.Op != token.MUL {
+						return false
+					}
+				case *ssa.DebugRef:
+				default:
+					return false
+				}
+			}
+		case *ssa.UnOp:
+			if x.Op != token.MUL {
+				return false
+			}
+		case *ssa.DebugRef:
 		default:
 			return false
 		}
